@@ -150,8 +150,8 @@ def judge(rep, prop, inp, by_id, results, stats, samples, replay_obj=None):
                     bad = [i for i, e in enumerate(c["seq"]) if e in ("tampered", "tampered2", "stripped", "expired", "other-subject")]
                     if bad:
                         i = bad[0]
-                        sig.update(carried="%s@%d/%d%s" % (c["seq"][i], i + 1, len(c["seq"]), " after " + c["seq"][i - 1] if i else ""),
-                                   entry=c.get("entry", "verifier"))
+                        pos = "first" if i == 0 else "last" if i == len(c["seq"]) - 1 else "middle"
+                        sig.update(carried="%s@%s" % (c["seq"][i], pos), entry=c.get("entry", "verifier"))
                 rep.violation(sig, replay)
             elif not v.get("accept") and req == "accept":
                 rep.violation(dict(kind="own-output-rejected", family=c["fam"], format=c["fmt"], reason=cls), replay)
@@ -241,7 +241,11 @@ def run(prop, tier, seed, replay=None):
 
     quick = tier == "quick"
     # 1. the prescriptive variant (both deviations repaired) satisfies the statement on the complete product
-    chk = vlib.tlc("MCVerify", "Verify.c01.check.cfg", workers=8, timeout=600, coverage=not quick)
+    # (the prescriptive check and the generation run explore the same graph: run them side by side, 4 + 4 TLC workers)
+    with ThreadPoolExecutor(max_workers=2) as ex:
+        f_chk = ex.submit(vlib.tlc, "MCVerify", "Verify.c01.check.cfg", workers=4, timeout=600, coverage=not quick)
+        f_gen = ex.submit(vlib.tlc, "MCVerify", "Verify.c01.gen.cfg", workers=4, timeout=600)
+        chk, gen = f_chk.result(), f_gen.result()
     if chk.error:
         raise Inconclusive("TLC Verify.c01.check.cfg: %s" % chk.error)
     if chk.violation:
@@ -260,13 +264,18 @@ def run(prop, tier, seed, replay=None):
             raise Inconclusive("vacuity: the didstore variant is expected to violate AcceptOnlyIf, TLC says %s %s" % (dev2.violation, dev2.error))
         models.append(dict(cfg="Verify.c01.deviation2.cfg", states=dev2.distinct, transitions=dev2.generated, expected_violation="AcceptOnlyIf"))
     # 2. the descriptive variant (the code as it is) prints every case with the verdict required by the statement
-    gen = vlib.tlc("MCVerify", "Verify.c01.gen.cfg", workers=8, timeout=600)
     if not gen.ok:
         raise Inconclusive("generation run failed: %s %s" % (gen.violation, gen.error))
     models.append(dict(cfg="Verify.c01.gen.cfg", states=gen.distinct, transitions=gen.generated, cases=len(gen.printed), wall_s=round(gen.wall, 1)))
     cases = []
     for p in gen.printed:
         cases.append(dict(id=case_id(p["case"]), case=p["case"], req=p["req"], impl=p["impl"], failing=p.get("failing") or []))
+    n_enumerated = len(cases)
+    if quick:
+        # presentations with THREE credentials: a seeded half of the 2 x 2 x 2 x 729 sequences (all of them in thorough);
+        # every other family and all two-credential presentations are complete in both tiers
+        keep = lambda c: len(c["case"].get("seq") or []) < 3 or int(hashlib.sha1(("%d|%s" % (seed, c["id"])).encode()).hexdigest(), 16) % 2 == 0
+        cases = [c for c in cases if keep(c)]
     cases.sort(key=lambda x: x["id"])
     if len({c["id"] for c in cases}) != len(cases) or not cases:
         raise Inconclusive("case enumeration is not a set of %d distinct cases" % len(cases))
@@ -304,7 +313,9 @@ def run(prop, tier, seed, replay=None):
     cov = dict(
         evaluations=stats["evaluations"],
         distinct_nontrivial=stats["nonmut_runs"] + stats["mut_executed"] - stats["mut_same_view"],
-        rule="TLC enumerates the complete abstract product of Verify.tla (families vc, vpsig, vpvc: document attributes x proof format x "
+        rule="TLC enumerates the complete abstract product of Verify.tla (families vc, vpsig, vpvc, vpmulti [presentations carrying every "
+             "sequence of 2..3 credentials over 9 element classes incl. same-id tampered copies, through verifier.VerifyVP and the REST "
+             "handler; the credentials handed out as verified are re-verified one by one]: document attributes x proof format x "
              "signer DID-document history x validation time x trust x revocation x flags; family mut: MutationClass x PathClass x "
              "format x position); each abstract case is one distinct TLC behaviour. Every non-mutation case is built from real objects "
              "(issuer.Issue / forged by an attacker key / wallet.BuildPresentation / issuer.Revoke / status list) on node A and verified "
@@ -317,7 +328,7 @@ def run(prop, tier, seed, replay=None):
         samples=samples,
         exhaustive=False,
         states=sum(m["states"] for m in models), transitions=sum(m["transitions"] for m in models),
-        models=models, abstract_cases=len(cases) - 2, abstract_cases_by_family_and_requirement=fam_counts,
+        models=models, abstract_cases=len(cases) - 2, abstract_cases_enumerated_by_tlc=n_enumerated, abstract_cases_by_family_and_requirement=fam_counts,
         nonmutation_cases=n_nonmut, nonmutation_runs=stats["nonmut_runs"],
         mutation_classes_realised=stats["mut_realised"], mutation_classes_without_concrete_instance=stats["mut_unrealised"],
         concrete_mutants_available=stats["mut_instances"], concrete_mutants_executed=stats["mut_executed"],
